@@ -716,14 +716,15 @@ end Var
 /-- `variant::dynamic_cast_<Types, Cast>(base)`: `fold_break` over the type list with state `result`;
 `casts[i] ()` is `cast::apply<Cast, T_i>(base)` (an optional reference); the result holds the index of the
 alternative (`reference<T_i>`) and the reference -/
+def dynamicCastStep {ρ : Type} (ic : Nat × (Unit → K σ (Option ρ))) (result : Option (Nat × ρ)) :
+    K σ (Loop × Option (Nat × ρ)) :=
+  if Opt.hasValue result then pure (Loop.break_, result)
+  else do
+    let c ← ic.2 ()
+    let r ← Opt.map c (fun ref => pure (ic.1, ref))
+    pure (Loop.continue_, r)
 def dynamicCast {ρ : Type} (casts : List (Unit → K σ (Option ρ))) : K σ (Option (Nat × ρ)) :=
-  foldBreak (fun (ic : Nat × (Unit → K σ (Option ρ))) (result : Option (Nat × ρ)) =>
-      if Opt.hasValue result then pure (Loop.break_, result)
-      else do
-        let c ← ic.2 ()
-        let r ← Opt.map c (fun ref => pure (ic.1, ref))
-        pure (Loop.continue_, r))
-    ((List.range casts.length).zip casts) none
+  foldBreak dynamicCastStep ((List.range casts.length).zip casts) none
 
 /-! ## monad/bind.hpp, return.hpp, chain.hpp, do.hpp -/
 
